@@ -281,14 +281,16 @@ pub(crate) mod verif_noise {
                 assert!(eq(&DH_K[1], &s_priv, 32) && eq(&DH_U[1], &rs, 32), "[C06,C05] token ss: DH(sender static private, recipient static public)");
                 assert!(eq(&HK_CK[1], &HK_O1[0], 32) && HK_IKMLEN[1] == 32 && eq(&HK_IKM[1], &DH_OUT[1], 32), "[C06,C05] MixKey(ss): HKDF(ck from es, DH result)");
                 assert!(eq(&HK_CK[2], &HK_O1[1], 32) && HK_IKMLEN[2] == 0, "[C06] Split(): HKDF(ck, empty)");
-            } else {
+            } else if part == 2 {
                 assert!(eq(&AE_KEY[0], &HK_O2[0], 32) && AE_NONCE[0] == 0 && eq(&AE_AD[0], &SHA_OUT[2], 32) && eq(&AE_PT[0], &s_pub, 32), "[C06,C05] token s: EncryptAndHash(sender static public) under the es key, nonce 0, AD = h");
                 assert!(eq(&AE_KEY[1], &HK_O2[1], 32) && AE_NONCE[1] == 0 && eq(&AE_AD[1], &SHA_OUT[3], 32) && eq(&AE_PT[1], &payload, 32), "[C06,C05] payload: EncryptAndHash under the ss key, nonce reset to 0, AD = h");
-                assert!(w.message.len() == 128, "[C06,C08] the handshake message is 128 bytes");
-                assert!(eq(&w.message, &e_pub, 32), "[C06,C08] message begins with the ephemeral public key in clear");
-                assert!(eq(&w.message[32..], &AE_CT[0], 48), "[C06,C08] encrypted static key follows e");
-                assert!(eq(&w.message[80..], &AE_CT[1], 48), "[C06,C08] message = e || enc(s) || enc(payload)");
                 assert!(hs.get_pubkey().is_none(), "[C05] the initiator side never reports a sender key");
+            } else {
+                assert!(w.message.len() == 128, "[C06,C08] the handshake message is 128 bytes");
+                let m: [u8; 128] = w.message[..].try_into().unwrap();
+                assert!(eq(&m, &e_pub, 32), "[C06,C08] message begins with the ephemeral public key in clear");
+                assert!(eq(&m[32..], &AE_CT[0], 48), "[C06,C08] encrypted static key follows e");
+                assert!(eq(&m[80..], &AE_CT[1], 48), "[C06,C08] message = e || enc(s) || enc(payload)");
             }
         }
         core::mem::forget(hs); core::mem::forget(w);
@@ -314,6 +316,13 @@ pub(crate) mod verif_noise {
     #[kani::stub(crate::chapoly_encrypt_noise, seal_model)]
     #[kani::unwind(6)]
     pub fn noise_write_lockstep_seal() { noise_write(2); }
+    #[kani::proof]
+    #[kani::stub(crate::sha256, sha_model)]
+    #[kani::stub(crate::hkdf_noise, hkdf_model)]
+    #[kani::stub(crate::x25519, dh_model)]
+    #[kani::stub(crate::chapoly_encrypt_noise, seal_model)]
+    #[kani::unwind(6)]
+    pub fn noise_write_lockstep_msg() { noise_write(3); }
 
     /// C01(c) / C05(1) / C06(B): the reader, given a message built exactly as the Noise X pattern prescribes (the trace
     /// noise_write_lockstep shows the writer produces), recomputes the same hashes/keys, presents the commuted DH pairs,
